@@ -9,6 +9,10 @@ package main
 // characters (werr / perr: plain, Timeout(), wrapping sentinels, the subscriber's own context error ...; a Put
 // error alone or together with the message), and the scenarios of the joe family that do not script the replayer
 // wrapper also run against a Joe with no Replayer at all (noReplayer).
+// Also in every class: some subscribers are HTTP sessions that come in through sse.Server.ServeHTTP (OnSession scripted),
+// some publications go through Server.Publish (sprinkleServer), some writers forward to a real *sse.Session
+// (sprinkleSession), some publisher threads keep ONE topics slice and rewrite it in place between calls (sprinkleReuse),
+// some subscribers present a Last-Event-ID (sprinkleIDs).
 // All randomness comes from c.R.
 
 import (
@@ -171,12 +175,37 @@ func (g *jgen) countScenario(fam, class string, s *jScenario) {
 		c.Count("parks:yes")
 	}
 	seen := map[string]bool{}
+	if s.noOnSession {
+		seen["server-without-OnSession"] = true
+	}
+	refusing := false
+	for _, v := range s.putScript {
+		refusing = refusing || v >= 100 && v < 300
+	}
 	for _, x := range s.subs {
 		for _, t := range s.pubs {
 			for _, m := range t.msgs {
-				for _, sh := range jShape(x.topics, m.topics) {
+				for _, sh := range jShape(x.effTopics(s.noOnSession), m.effTopics()) {
 					seen[sh] = true
 				}
+			}
+		}
+		if x.via&jViaServer != 0 {
+			seen["subscriber-is-a-Server-session"] = true
+			if !s.noOnSession {
+				n := strconv.Itoa(len(x.topics))
+				if len(x.topics) == 0 && x.via&jViaNil != 0 {
+					n = "nil"
+				}
+				seen["OnSession-answers-topics:"+n] = true
+			}
+		} else if len(s.subs) > 1 {
+			seen["subscriber-through-Joe.Subscribe-next-to-others"] = true
+		}
+		if x.via&jViaSession != 0 {
+			seen["writer-forwards-to-a-real-Session"] = true
+			if refusing || s.kind >= 1 && s.kind <= 3 {
+				seen["writer-forwards-to-a-real-Session+Put-may-refuse"] = true
 			}
 		}
 		fail := false
@@ -225,7 +254,20 @@ func (g *jgen) countScenario(fam, class string, s *jScenario) {
 			}
 		}
 	}
-	for _, v := range s.repScript {
+	for k, v := range s.repScript {
+		withID := "without-last-event-id"
+		if s.kind != 4 && (v == 98 || v >= 100) {
+			// the k-th Replay call is for the k-th subscription the loop takes; where the subscribers start one after
+			// the other that is subscriber k
+			if k < len(s.subs) && s.subs[k].idopt.Present() {
+				withID = "with-last-event-id"
+			}
+			if v == 98 {
+				seen["replay-panics/subscriber-"+withID] = true
+			} else {
+				seen["replay-errors/subscriber-"+withID] = true
+			}
+		}
 		if v == 98 {
 			seen["replay-panics"] = true
 		} else if v >= 100 && s.kind != 4 {
@@ -238,6 +280,12 @@ func (g *jgen) countScenario(fam, class string, s *jScenario) {
 	}
 	for _, t := range s.pubs {
 		for _, m := range t.msgs {
+			if m.flags&jPubServer != 0 {
+				seen["Server.Publish:topics:"+strconv.Itoa(len(m.topics))] = true
+			}
+			if m.flags&jPubReuse != 0 && (s.kind == 0 || s.kind == 4) {
+				seen["publisher-rewrites-its-one-topics-slice-in-place"] = true
+			}
 			if m.same != 0 {
 				seen["same-message-object-published-again"] = true
 				if s.kind >= 1 && s.kind <= 3 && s.auto != 0 {
@@ -310,6 +358,89 @@ func (g *jgen) sprinkleSame(s *jScenario) {
 	}
 }
 
+// someID: a Last-Event-ID a client may present (a numeral, text, set but empty).
+func (g *jgen) someID() val.V {
+	return jID(rng.Pick(g.r, []string{"0", "1", "3", "7", "m1", "m2", "zz", ""}))
+}
+
+// presentIDs: subscribers present a Last-Event-ID - mode 0 nobody, 1 everybody, 2 each one with probability 1/2, 3 those
+// that pick says.  Only where nothing is stored by ID (the scripted wrapper alone / no replayer): there a presented ID
+// changes nothing of what Joe owes the subscription - whatever Replay then answers (ok, an error, a panic).
+func (g *jgen) presentIDs(s *jScenario, mode int, pick func(i int) bool) {
+	if s.kind != 0 && s.kind != 4 {
+		return
+	}
+	for i := range s.subs {
+		if s.subs[i].idopt.Present() {
+			continue
+		}
+		if mode == 1 || mode == 2 && g.r.Bool() || mode == 3 && pick != nil && pick(i) {
+			s.subs[i].idopt = g.someID()
+		}
+	}
+}
+
+// sprinkleIDs: in one scenario of four of every class some subscribers present a Last-Event-ID (see presentIDs).
+func (g *jgen) sprinkleIDs(fam string, s *jScenario) {
+	if fam == "joe" && g.r.Chance(1, 4) {
+		g.presentIDs(s, 2, nil)
+	}
+}
+
+// sprinkleServer: in one scenario of five of every class some subscribers are HTTP sessions of an sse.Server in front of
+// the scenario's Joe (OnSession answers the subscriber's topics), and some publications go through Server.Publish.
+// What Joe owes a subscription or a publication does not depend on who built it.
+func (g *jgen) sprinkleServer(fam string, s *jScenario) {
+	if fam != "joe" || !g.r.Chance(1, 5) {
+		return
+	}
+	for i := range s.subs {
+		if s.subs[i].via == 0 && g.r.Bool() {
+			s.subs[i].via = jViaServer
+			if g.r.Bool() {
+				s.subs[i].via |= jViaSession
+			}
+			if g.r.Bool() {
+				s.subs[i].via |= jViaNil
+			}
+		}
+	}
+	for t := range s.pubs {
+		for k := range s.pubs[t].msgs {
+			if g.r.Bool() {
+				s.pubs[t].msgs[k].flags |= jPubServer
+			}
+		}
+	}
+}
+
+// sprinkleSession: in one scenario of four some writers forward what they are handed to a real *sse.Session.
+func (g *jgen) sprinkleSession(fam string, s *jScenario) {
+	if fam != "joe" || !g.r.Chance(1, 4) {
+		return
+	}
+	for i := range s.subs {
+		if g.r.Chance(2, 3) {
+			s.subs[i].via |= jViaSession
+		}
+	}
+}
+
+// sprinkleReuse: in one scenario of five (where no real replayer keeps the topics it is given) some publisher threads
+// keep one topics slice: every call passes the same slice object, rewritten in place after the previous call's round.
+func (g *jgen) sprinkleReuse(fam string, s *jScenario) {
+	if fam != "joe" || s.kind != 0 && s.kind != 4 || !g.r.Chance(1, 5) {
+		return
+	}
+	for t := range s.pubs {
+		if g.r.Chance(2, 3) {
+			for k := range s.pubs[t].msgs {
+				s.pubs[t].msgs[k].flags |= jPubReuse
+			}
+		}
+	}
+}
+
 func jNoFault(script []uint64) bool {
 	for _, v := range script {
 		if v == 98 || v >= 100 {
@@ -368,7 +499,11 @@ func (g *jgen) noReplayer(fam string, s *jScenario) {
 func (g *jgen) emit(fam, class string, s *jScenario) {
 	g.sprinkleBlank(s)
 	g.sprinkleSame(s)
+	g.sprinkleIDs(fam, s)
+	g.sprinkleServer(fam, s)
+	g.sprinkleSession(fam, s)
 	g.noReplayer(fam, s)
+	g.sprinkleReuse(fam, s)
 	g.countScenario(fam, class, s)
 	g.c.Emit(val.L(s.enc()))
 }
@@ -631,6 +766,9 @@ func (g *jgen) tplShutdown(maxSubs int) (*jScenario, string) {
 			late := jSubSpec{topics: []uint64{topic}, start: jEvN(34, jAny, early)}
 			if g.r.Chance(1, 4) {
 				late.hasCancel, late.cancel = true, jEv(rng.Pick(g.r, []uint64{41, 18}), rng.Pick(g.r, []uint64{i, jAny}))
+			}
+			if g.r.Bool() {
+				late.idopt = g.someID()
 			}
 			s.subs = append(s.subs, late)
 			// the k-th Replay call is the k-th subscription the loop takes: the late one is the last
@@ -932,6 +1070,8 @@ func (g *jgen) tplRepFault(maxSubs int) (*jScenario, string) {
 		s.subs[0].script = append(jZeros(g.r.Intn(4)), g.werr())
 		s.subs[0].selfCancel = g.r.Bool()
 	}
+	// Last-Event-ID presented by nobody / everybody / some: x every verdict of the Replay for that subscription
+	g.presentIDs(s, g.r.Intn(3), nil)
 	s.shuts = []jShutSpec{jFinalShut()}
 	return s, name
 }
@@ -1021,6 +1161,14 @@ func (g *jgen) tplFaultSeq(n, maxSubs int) (*jScenario, string) {
 		}
 	}
 	s.pubs = append(s.pubs, pt)
+	// who presents a Last-Event-ID: nobody, the subscribers whose Replay is scripted to fail or panic, everybody
+	// (n walks through the three for each of the 16 pairs)
+	switch (n / 16) % 3 {
+	case 1:
+		g.presentIDs(s, 3, func(i int) bool { return i < len(s.repScript) && s.repScript[i] != 0 })
+	case 2:
+		g.presentIDs(s, 1, nil)
+	}
 	s.shuts = []jShutSpec{jFinalShut()}
 	return s, names[f1] + "+" + names[f2]
 }
@@ -1101,6 +1249,153 @@ func (g *jgen) tplShapes(maxSubs int) (*jScenario, string) {
 	}
 	s.shuts = []jShutSpec{jFinalShut()}
 	return s, name
+}
+
+// ---- (g) sessions of an sse.Server next to direct subscribers -------------------------------------------
+//
+// Subscribers come in through Server.ServeHTTP: OnSession answers each its own topic list of length 0 (nil or empty:
+// the default topic), 1, 2 or 3 - or the Server has no OnSession at all - next to subscribers that call Joe.Subscribe
+// themselves; publications go through Server.Publish without topics (the default topic), with explicit topics (the
+// default topic among them or not) and through Joe.Publish.  The oracle is the one of every class: a message goes to
+// exactly the subscribers whose topics intersect its topics.
+
+func (g *jgen) tplServer(n, maxSubs int) *jScenario {
+	s := g.base()
+	s.noOnSession = n%5 == 4
+	nsubs := 2 + g.r.Intn(maxSubs-1)
+	for i := 0; i < nsubs; i++ {
+		x := jSubSpec{via: jViaServer}
+		l := g.r.Intn(4) // the length of the list OnSession answers
+		if i == 0 {
+			l = n % 4
+		}
+		if i == 1 {
+			l = (n / 4) % 4
+		}
+		switch {
+		case g.r.Chance(1, 4):
+			// a subscriber of its own, on the default topic or another
+			x.via = 0
+			x.topics = g.topics(1+g.r.Intn(2), 3)
+		case s.noOnSession || l == 0:
+			if g.r.Bool() {
+				x.via |= jViaNil
+			}
+		default:
+			x.topics = g.topics(l, 4)
+		}
+		if g.r.Bool() {
+			x.via |= jViaSession
+		}
+		if i > 0 && g.r.Bool() {
+			x.start = jEv(34, uint64(i-1)) // one after the other
+		}
+		if g.r.Chance(1, 8) {
+			x.script = append(jZeros(g.r.Intn(5)), g.werr())
+			x.selfCancel = g.r.Bool()
+		}
+		if g.r.Chance(1, 8) {
+			x.hasCancel, x.cancel = true, jEvN(38, uint64(i), uint64(1+g.r.Intn(2)))
+		}
+		if g.r.Chance(1, 6) {
+			x.idopt = g.someID()
+		}
+		s.subs = append(s.subs, x)
+	}
+	var start jCond
+	if g.r.Chance(4, 5) {
+		start = jEvN(34, jAny, uint64(nsubs))
+	}
+	for t, nt := 0, 1+g.r.Intn(2); t < nt; t++ {
+		pt := jPubSpec{start: start}
+		reuse := g.r.Chance(1, 4)
+		for k, m := 0, 2+g.r.Intn(3); k < m; k++ {
+			ms := jMsgSpec{}
+			if g.r.Chance(2, 3) {
+				ms.flags = jPubServer
+				switch g.r.Intn(6) {
+				case 0, 1: // no topics: the default topic
+				case 2:
+					ms.topics = []uint64{0} // the default topic, named
+				default:
+					ms.topics = g.topics(1+g.r.Intn(2), 4)
+				}
+			} else {
+				ms.topics = g.topics(1+g.r.Intn(2), 4)
+				if g.r.Chance(1, 3) {
+					ms.topics = []uint64{0}
+				}
+			}
+			if reuse {
+				ms.flags |= jPubReuse
+			}
+			pt.msgs = append(pt.msgs, ms)
+		}
+		s.pubs = append(s.pubs, pt)
+	}
+	if g.r.Chance(1, 4) {
+		// a session that joins later
+		x := jSubSpec{via: jViaServer, start: jEv(15, uint64(g.r.Intn(jToks(s))))}
+		if !s.noOnSession {
+			x.topics = g.topics(g.r.Intn(3), 4)
+		}
+		s.subs = append(s.subs, x)
+	}
+	s.shuts = []jShutSpec{jFinalShut()}
+	return s
+}
+
+// ---- (h) a publisher that keeps ONE topics slice ---------------------------------------------------------
+//
+// Every Publish call of a thread passes the same slice object; between two calls - once the delivery round of the
+// previous one is over - the publisher rewrites its elements in place (same length: every element replaced; shorter:
+// resliced; longer: a new buffer).  Nobody subscribes in between (or, sometimes, somebody does).  The subscribers'
+// topic sets make consecutive publications go to different recipients.
+
+func (g *jgen) tplReuse(maxSubs int) *jScenario {
+	s := g.base()
+	universe := 2 + g.r.Intn(3)
+	nsubs := 2 + g.r.Intn(maxSubs-1)
+	for i := 0; i < nsubs; i++ {
+		x := jSubSpec{topics: []uint64{uint64(i % universe)}}
+		if g.r.Chance(1, 4) {
+			x.topics = g.topics(2, universe)
+		}
+		if g.r.Chance(1, 10) {
+			x.script = append(jZeros(g.r.Intn(5)), g.werr())
+			x.selfCancel = g.r.Bool()
+		}
+		s.subs = append(s.subs, x)
+	}
+	for t, nt := 0, 1+g.r.Intn(2); t < nt; t++ {
+		pt := jPubSpec{start: jEvN(34, jAny, uint64(nsubs))}
+		l := 1 + g.r.Intn(2)
+		var prev []uint64
+		for k, m := 0, 3+g.r.Intn(4); k < m; k++ {
+			ll := l
+			if g.r.Chance(1, 6) {
+				ll = 1 + g.r.Intn(3)
+			}
+			ms := jMsgSpec{topics: g.topics(ll, universe), flags: jPubReuse}
+			for try := 0; try < 4 && len(prev) == len(ms.topics) && prev[0] == ms.topics[0]; try++ {
+				ms.topics = g.topics(ll, universe) // rather a different list than the one before
+			}
+			if g.r.Chance(1, 4) {
+				ms.flags |= jPubServer
+			}
+			prev = ms.topics
+			pt.msgs = append(pt.msgs, ms)
+		}
+		s.pubs = append(s.pubs, pt)
+	}
+	if g.r.Chance(1, 5) {
+		s.subs = append(s.subs, jSubSpec{topics: g.topics(1, universe), start: jEv(15, uint64(g.r.Intn(jToks(s))))})
+	}
+	if g.r.Chance(1, 6) {
+		s.shuts = append(s.shuts, jShutSpec{start: jEv(12, uint64(g.r.Intn(jToks(s))))})
+	}
+	s.shuts = append(s.shuts, jFinalShut())
+	return s
 }
 
 // ---- random mix -------------------------------------------------------------------------------------
@@ -1205,6 +1500,7 @@ func (g *jgen) tplRandom(maxSubs int) *jScenario {
 			}
 			s.repScript = append(s.repScript, v)
 		}
+		g.presentIDs(s, 2, nil)
 	}
 	return s
 }
@@ -1249,6 +1545,12 @@ func genJoe(c *Ctx) {
 	for n := 0; n < 30*mult; n++ {
 		s, name := g.tplShapes(maxSubs)
 		g.emit("joe", "message-shapes/"+name, s)
+	}
+	for n := 0; n < 40*mult; n++ {
+		g.emit("joe", "server-sessions", g.tplServer(n, maxSubs))
+	}
+	for n := 0; n < 30*mult; n++ {
+		g.emit("joe", "publisher-keeps-one-topics-slice", g.tplReuse(maxSubs))
 	}
 }
 
